@@ -28,7 +28,9 @@ pub fn child(args: &[String]) -> Result<(), Box<dyn std::error::Error>> {
         let mut entry = json!({"op": i, "status": o.status.class(), "result": canon(&o.result)});
         if boundary(op) && run.tracker.at_boundary() && !run.tracker.desynced {
             if Some(i) == restart {
-                let _ = run.step(&Op::Commit);
+                // after a clearCaches (or a commit) of the common history a restart is state-neutral as it is;
+                // anywhere else the restarted replica commits first
+                if !matches!(op, Op::Clear | Op::Commit) { let _ = run.step(&Op::Commit); }
                 let _ = run.step(&Op::Reopen);
             }
             if requests.is_none() { entry["observation"] = json!(run.observe()); }
@@ -93,20 +95,32 @@ pub fn run(out: &Path, seed: u64, thorough: bool) -> Result<(), Box<dyn std::err
     let mut samples = Vec::new();
     let mut evaluations = 0u64;
     let mut boundaries = 0u64;
-    for i in 0..n {
+    // scripted histories: what lives only in memory between commits (the highest block ever recorded, the
+    // cached height, the pool) must not make a restarted replica answer differently
+    let z = crate::sim::Hx::zero32();
+    let scripted: Vec<Vec<Op>> = vec![
+        vec![Op::Initialise { hash: z.clone(), ts: 1_700_000_000, height: 0 }, Op::Mine { n: 21, ts: 1_700_000_600 }, Op::Commit, Op::Mine { n: 5, ts: 1_700_001_200 }, Op::Clear,
+             Op::Reorg(12), Op::Mine { n: 1, ts: 1_700_001_800 }],
+        vec![Op::Initialise { hash: z.clone(), ts: 1_700_000_000, height: 0 }, Op::Mine { n: 3, ts: 1_700_000_600 }, Op::Commit, Op::Mine { n: 11, ts: 1_700_001_200 }, Op::Clear,
+             Op::Mine { n: 1, ts: 1_700_001_800 }, Op::Reorg(2), Op::Clear, Op::Mine { n: 1, ts: 1_700_002_400 }],
+    ];
+    for i in 0..(n + scripted.len() as u64) {
         let mut p = GenParams::small();
         p.blocks = 8 + rng.below(6);
         p.max_txs = 9;                       // large blocks and uncommitted multi-block ranges maximise order sensitivity
         p.genesis = if i % 2 == 0 { Genesis::Initialise } else { Genesis::Mine };
-        p.p_reorg = 6; p.p_clear = 0; p.p_reopen = 0; p.p_mine = 8;
+        p.p_reorg = 6; p.p_clear = if i % 2 == 1 { 10 } else { 0 }; p.p_reopen = 0; p.p_mine = 8;
         p.schedule = if i % 3 == 0 { CommitSchedule::Never } else { CommitSchedule::EveryK(5) };
-        let mut h = gen_history(&mut rng, &p);
-        h = with_schedule(&h, p.schedule, &mut rng);
+        let mut h = if i < n { gen_history(&mut rng, &p) } else { scripted[(i - n) as usize].clone() };
+        if i < n { h = with_schedule(&h, p.schedule, &mut rng); }
         let hf = out.join(format!("c02_hist_{}.json", i));
         std::fs::write(&hf, serde_json::to_string(&h)?)?;
         // restart point: a boundary in the middle
         let bidx: Vec<usize> = h.iter().enumerate().filter(|(_, o)| matches!(o, Op::Finalise { .. } | Op::Mine { .. })).map(|(k, _)| k).collect();
-        let restart = bidx.get(bidx.len() / 2).cloned();
+        // prefer a clearCaches of the history that follows uncommitted blocks (the restart then happens
+        // where memory and disk may have drifted apart without any commit in between)
+        let clears: Vec<usize> = h.iter().enumerate().filter(|(k, o)| matches!(o, Op::Clear) && *k > 0 && !matches!(h[*k - 1], Op::Commit)).map(|(k, _)| k).collect();
+        let restart = if !clears.is_empty() { Some(clears[clears.len() / 2]) } else { bidx.get(bidx.len() / 2).cloned() };
         let a = run_child(&hf, &out.join(format!("c02_obs_{}_a.json", i)), None, None);
         let b = run_child(&hf, &out.join(format!("c02_obs_{}_b.json", i)), restart, None);
         evaluations += 1;
